@@ -200,23 +200,22 @@ Theorem subtree_items_connected : forall d n G feat parents height,
 Proof. exact node_connected. Qed.
 Print Assumptions subtree_items_connected.
 
-(* (H3b) partition(th) on a proper dendrogram, th above the leaves' height:
-   defined, one label per item, and two items share a label iff they have a
-   common ancestor of height < th. *)
+(* (H3b) partition(th) on a proper dendrogram, ANY threshold (since /repo 813b3d1
+   the leaves are always kept): defined, one label per item, and two items
+   share a label iff they are the same item or have a common ancestor of
+   height < th. *)
 Theorem partition_at_height_spec : forall d n G feat parents height th,
-  ProperDendrogram d n G feat parents height -> (n <= length parents)%nat ->
-  (forall x, (x < n)%nat -> nth x height 0 < th) -> (0 < n)%nat ->
+  ProperDendrogram d n G feat parents height -> (n <= length parents)%nat -> (0 < n)%nat ->
   exists u, partition parents height th = Some u /\ length u = n /\
     forall x y, (x < n)%nat -> (y < n)%nat ->
       (nth x u 0%nat = nth y u 0%nat <->
-       exists a, Under parents x a /\ Under parents y a /\ nth a height 0 < th).
+       x = y \/ exists a, Under parents x a /\ Under parents y a /\ nth a height 0 < th).
 Proof. exact partition_spec. Qed.
 Print Assumptions partition_at_height_spec.
 
 (* (H3c) ... and every cluster of the cut is connected in the constraint graph. *)
 Theorem cut_clusters_connected : forall d n G feat parents height th,
   ProperDendrogram d n G feat parents height -> (n <= length parents)%nat -> (0 < n)%nat ->
-  (forall x, (x < n)%nat -> nth x height 0 < th) ->
   exists u, partition parents height th = Some u /\
     forall x y, (x < n)%nat -> (y < n)%nat -> nth x u 0%nat = nth y u 0%nat ->
       PathIn G (fun z => (z < n)%nat /\ nth z u 0%nat = nth x u 0%nat) x y.
@@ -251,14 +250,26 @@ Proof. exists 1%nat, 4%nat, path4, [[0];[1];[2];[3]], 3%nat,
   split; [vm_compute; reflexivity|]. cbn. lia. Qed.
 Print Assumptions split_gives_k_clusters_refuted.
 
-(* (H5) REFUTED: split(k), 1 <= k <= n, is not even defined when a merge has
-   cost 0 (identical items): the threshold is 0 and no node is below it
-   (finding split/raises/zero-cost-merge). *)
-Theorem split_defined_refuted :
-  exists d n G feat k p h, ward d n G feat [] = Some (p, h) /\ (1 <= k <= n)%nat /\ split p h k = None.
-Proof. exists 1%nat, 4%nat, path4, [[0];[0];[5];[9]], 4%nat, [4;4;5;5;6;6;6]%nat, [0;0;0;0;0;8;57].
-  split; [vm_compute; reflexivity|]. split; [lia|]. vm_compute; reflexivity. Qed.
-Print Assumptions split_defined_refuted.
+(* (H5) since /repo 813b3d1 (replaces split_defined_refuted): on a proper
+   dendrogram split(k) is defined for EVERY k and gives one label per item -
+   the former witness (a zero-cost merge of identical items) included. *)
+Theorem split_defined : forall d n G feat parents height k,
+  ProperDendrogram d n G feat parents height -> (n <= length parents)%nat -> (0 < n)%nat ->
+  exists u, split parents height k = Some u /\ length u = n.
+Proof. intros d n G feat parents height k PD Hn Hpos.
+  destruct (split_spec d n G feat parents height k PD Hn Hpos) as [H1 H2].
+  destruct (Nat.le_gt_cases (Nat.min k (length parents)) (count_roots parents)) as [Hle|Hgt].
+  - destruct (H1 Hle) as (u & Hu & Hl & _). exists u. now split.
+  - rewrite (H2 Hgt).
+    destruct (partition_spec d n G feat parents height
+                (nth (length parents + count_roots parents - Nat.min k (length parents)) (sortq height) 0) PD Hn Hpos)
+      as (u & Hu & Hl & _). exists u. now split. Qed.
+Print Assumptions split_defined.
+
+Example split_former_zero_cost_witness :
+  ward 1 4 path4 [[0];[0];[5];[9]] [] = Some ([4;4;5;5;6;6;6]%nat, [0;0;0;0;0;8;57]) /\
+  split [4;4;5;5;6;6;6]%nat [0;0;0;0;0;8;57] 4 = Some [0;1;2;3]%nat.
+Proof. split; vm_compute; reflexivity. Qed.
 
 (* (H6) since /repo 6608ba6 (`...flatnonzero(...)[0]`) the former witness of
    ward_total_refuted - a merged pair that is also joined by the reverse edge -
